@@ -79,6 +79,10 @@ impl<'a> G<'a> {
     /// number of blocks with a bias towards 0, 1, W-1, W, W+1, 2W, 2W+1, 3W+2 (full groups + tails);
     /// `max` is a soft cap that is raised so that at least two full groups and a tail fit
     fn nblocks(&mut self, w: usize, max: usize) -> usize {
+        // medium lengths around powers of two (a threshold on the number of blocks would sit there)
+        if self.cur_bs <= 32 && self.rng.chance(1, 9) {
+            return *self.rng.pick(&[15usize, 16, 17, 31, 32, 33, 64, 65]);
+        }
         let cap = max.max(4 * w + 1).min(130);
         let c = [0, 1, 2, w.saturating_sub(1), w, w + 1, 2 * w, 2 * w + 1, 3 * w + 2, 4 * w + 1];
         let n = if self.rng.chance(1, 2) { *self.rng.pick(&c) } else { self.rng.range(0, cap.min(2 * w + 3).max(max)) };
@@ -138,7 +142,9 @@ impl<'a> G<'a> {
     }
     /// drive a block-level object through n units by a random schedule
     fn sched_blocks(&mut self, o: &str, n: usize, w: usize, b2b: Option<bool>, export: bool) {
-        for k in self.composition(n, (2 * w + 2).max(3), false) {
+        // a quarter of the schedules use few, large calls (a path taken only from some number of blocks per call on)
+        let maxpart = if self.rng.chance(1, 4) { n.max(1) } else { (2 * w + 2).max(3) };
+        for k in self.composition(n, maxpart, false) {
             let multi = self.rng.chance(2, 3);
             let b = b2b.unwrap_or_else(|| self.rng.coin());
             self.blocks(o, k, multi, b);
@@ -179,6 +185,10 @@ impl<'a> G<'a> {
                 let k = self.rng.below(5) as u128;
                 return json!({"belt_s": (u128::MAX - k).to_string()});
             }
+        }
+        if ctr_bits(base).is_none() && self.rng.chance(1, 8) {
+            // degenerate IVs (all zero, all 0xFF): a value-dependent shortcut would only show there
+            return json!({"fill": *self.rng.pick(&[0u8, 255])});
         }
         json!({"rand": id})
     }
@@ -280,6 +290,40 @@ fn is_block(k: &str) -> bool {
     BLOCK_KINDS.contains(&k)
 }
 
+/// warm-up behaviours for one process: every kind of object is constructed and used once with a cipher of block size
+/// `bs` (the toy family; kinds the size does not support are skipped)
+pub fn warmup(facs: &[Box<dyn Factory>], bs: usize) -> Vec<Value> {
+    let mut kinds: Vec<String> = BLOCK_KINDS.iter().map(|s| s.to_string()).collect();
+    kinds.push("cfbbuf".into());
+    for k in CTR_KINDS.iter().chain(["belt", "ofb"].iter()) {
+        kinds.push(core_of(k));
+        kinds.push(k.to_string());
+    }
+    for k in CTS_KINDS {
+        kinds.push(k.to_string());
+    }
+    let mut out = vec![];
+    for kind in kinds {
+        let Some(fi) = facs.iter().position(|f| f.bs() == bs && f.supports(&kind)) else { continue };
+        let fname = fac_name(facs[fi].as_ref());
+        let ks = kind.ends_with("core") || ctr_bits(&kind).is_some() || kind == "ofb";
+        for dir in if ks { vec!["ks"] } else { vec!["enc", "dec"] } {
+            let mut cmds = vec![json!({"op":"new","o":"a","fac":fname,"kind":kind,"dir":dir,"key":0,
+                "iv":{"rand":0},"src":{"rand":0},"via":"inner"})];
+            if CTS_KINDS.contains(&kind.as_str()) {
+                cmds.push(json!({"op":"oneshot","o":"a","how":"cts","n":2 * bs + 1,"b2b":false}));
+            } else if is_block(&kind) || kind.ends_with("core") {
+                cmds.push(json!({"op":"blocks","o":"a","n":2,"multi":true,"b2b":false}));
+                cmds.push(json!({"op":"blocks","o":"a","n":1,"multi":false,"b2b":true}));
+            } else {
+                cmds.push(json!({"op":"bytes","o":"a","n":2 * bs + 1,"b2b":false}));
+            }
+            out.push(Value::Array(cmds));
+        }
+    }
+    out
+}
+
 pub fn generate(prop: &str, tier: &str, facs: &[Box<dyn Factory>], rng: &mut Rng, i: usize) -> Value {
     let mut g = G { facs, rng, thorough: tier == "thorough", cmds: vec![], cur_w: 1, cur_bs: 1, idx: i };
     match prop {
@@ -317,8 +361,9 @@ fn gen_c01(g: &mut G) {
             let f = g.pick_fac(kind);
             let fs = g.same_fn(f, kind);
             let fd = *g.rng.pick(&fs);
-            let iv = json!({"rand": 0});
-            g.new_obj("e", f, kind, "enc", 0, iv.clone(), json!({"rand": 0}), "inner");
+            let iv = g.iv_for(kind, 0);
+            let src = g.data_src(0);
+            g.new_obj("e", f, kind, "enc", 0, iv.clone(), src, "inner");
             g.new_obj("d", fd, kind, "dec", 0, iv, json!({"out": "e"}), "inner");
             let n = g.nblocks(g.w(fd), 9) * if kind == "cfb8" { 3 } else { 1 };
             let (we, wd) = (g.w(f), g.w(fd));
@@ -410,19 +455,20 @@ fn gen_conf(g: &mut G, kinds: &[&str]) {
     let (bs, w) = (g.bs(f), g.w(f));
     let dir = if (kind == "cbc" || kind == "cfb") && g.rng.chance(2, 3) { "dec" } else if g.rng.coin() { "enc" } else { "dec" };
     let src0 = g.data_src(0);
+    let iv0 = g.iv_for(kind, 0);
     match kind {
         "cfbbuf" => {
-            g.new_obj("a", f, kind, dir, 0, json!({"rand":0}), src0.clone(), "inner");
+            g.new_obj("a", f, kind, dir, 0, iv0.clone(), src0.clone(), "inner");
             let n = g.nbytes(bs, 5);
             g.sched_bytes("a", n, bs, Some(false), true);
         }
         "ofb" => {
-            g.new_obj("a", f, kind, "ks", 0, json!({"rand":0}), src0.clone(), "inner");
+            g.new_obj("a", f, kind, "ks", 0, iv0.clone(), src0.clone(), "inner");
             let n = g.nbytes(bs, 5);
             g.sched_bytes("a", n, bs, None, true);
         }
         "ofbcore" => {
-            g.new_obj("a", f, kind, "ks", 0, json!({"rand":0}), src0.clone(), "inner");
+            g.new_obj("a", f, kind, "ks", 0, iv0.clone(), src0.clone(), "inner");
             let n = g.nblocks(w, 8);
             g.sched_blocks("a", n, w, None, true);
             if g.rng.coin() {
@@ -430,7 +476,7 @@ fn gen_conf(g: &mut G, kinds: &[&str]) {
             }
         }
         _ => {
-            g.new_obj("a", f, kind, dir, 0, json!({"rand":0}), src0.clone(), "inner");
+            g.new_obj("a", f, kind, dir, 0, iv0.clone(), src0.clone(), "inner");
             let oneshot = (kind == "cfb" || kind == "cfb8") && g.rng.chance(1, 4);
             let n = g.nblocks(w, 9) * if kind == "cfb8" { 2 } else { 1 };
             if let Some(ln) = g.long_n() {
@@ -454,8 +500,8 @@ fn gen_conf(g: &mut G, kinds: &[&str]) {
                 let m = if how == "padded:none" && g.rng.chance(3, 4) { m - m % u } else { m };
                 let room = pad_len(how, m, u);
                 let (b1, b2) = (g.rng.coin(), g.rng.coin());
-                g.new_obj("pe", f, kind, "enc", 0, json!({"rand":0}), src0.clone(), "inner");
-                g.new_obj("pd", f, kind, "dec", 0, json!({"rand":0}), json!({"out":"pe"}), "inner");
+                g.new_obj("pe", f, kind, "enc", 0, iv0.clone(), src0.clone(), "inner");
+                g.new_obj("pd", f, kind, "dec", 0, iv0.clone(), json!({"out":"pe"}), "inner");
                 g.cmds.push(json!({"op":"oneshot","o":"pe","how":how,"n":m,"b2b":b1,"junklen":room + g.rng.below(3)}));
                 g.cmds.push(json!({"op":"oneshot","o":"pd","how":how,"n":room,"b2b":b2,"junklen":room + g.rng.below(3)}));
             }
